@@ -185,7 +185,7 @@ impl<P: PageTableFrameMapping> Mapper<Size1GiB> for MappedPageTable<'_, P> {
             return Err(UnmapError::ParentEntryHugePage);
         }
 
-        let frame = PhysFrame::from_start_address(p3_entry.addr())
+        let frame = PhysFrame::from_start_address(huge_frame_addr(p3_entry))
             .map_err(|AddressNotAligned| UnmapError::InvalidFrameAddress(p3_entry.addr()))?;
 
         p3_entry.set_unused();
@@ -211,7 +211,8 @@ impl<P: PageTableFrameMapping> Mapper<Size1GiB> for MappedPageTable<'_, P> {
         {
             return Err(FlagUpdateError::ParentEntryHugePage);
         }
-        p3[page.p3_index()].set_flags(flags | PageTableFlags::HUGE_PAGE);
+        let frame_addr = huge_frame_addr(&p3[page.p3_index()]);
+        p3[page.p3_index()].set_addr(frame_addr, flags | PageTableFlags::HUGE_PAGE);
 
         Ok(MapperFlush::new(page))
     }
@@ -262,7 +263,7 @@ impl<P: PageTableFrameMapping> Mapper<Size1GiB> for MappedPageTable<'_, P> {
             return Err(TranslateError::ParentEntryHugePage);
         }
 
-        PhysFrame::from_start_address(p3_entry.addr())
+        PhysFrame::from_start_address(huge_frame_addr(p3_entry))
             .map_err(|AddressNotAligned| TranslateError::InvalidFrameAddress(p3_entry.addr()))
     }
 }
@@ -305,7 +306,7 @@ impl<P: PageTableFrameMapping> Mapper<Size2MiB> for MappedPageTable<'_, P> {
             return Err(UnmapError::ParentEntryHugePage);
         }
 
-        let frame = PhysFrame::from_start_address(p2_entry.addr())
+        let frame = PhysFrame::from_start_address(huge_frame_addr(p2_entry))
             .map_err(|AddressNotAligned| UnmapError::InvalidFrameAddress(p2_entry.addr()))?;
 
         p2_entry.set_unused();
@@ -335,7 +336,8 @@ impl<P: PageTableFrameMapping> Mapper<Size2MiB> for MappedPageTable<'_, P> {
             return Err(FlagUpdateError::ParentEntryHugePage);
         }
 
-        p2[page.p2_index()].set_flags(flags | PageTableFlags::HUGE_PAGE);
+        let frame_addr = huge_frame_addr(&p2[page.p2_index()]);
+        p2[page.p2_index()].set_addr(frame_addr, flags | PageTableFlags::HUGE_PAGE);
 
         Ok(MapperFlush::new(page))
     }
@@ -402,7 +404,7 @@ impl<P: PageTableFrameMapping> Mapper<Size2MiB> for MappedPageTable<'_, P> {
             return Err(TranslateError::ParentEntryHugePage);
         }
 
-        PhysFrame::from_start_address(p2_entry.addr())
+        PhysFrame::from_start_address(huge_frame_addr(p2_entry))
             .map_err(|AddressNotAligned| TranslateError::InvalidFrameAddress(p2_entry.addr()))
     }
 }
